@@ -33,6 +33,7 @@ mod oracle_c17;
 mod oracle_c07;
 mod oracle_c18;
 mod script_c05;
+mod script_c06;
 mod script_c18;
 mod step;
 use step::{CandView, Expect, Step};
@@ -1231,6 +1232,7 @@ fn main() {
     std::panic::set_hook(Box::new(|_| {}));
     let mut out = Out::new();
     let seed = seed_from_env();
+    if script_name.as_deref() == Some("c06") { script_c06::run(&mut out, seed, thorough); out.flush(); return; } // C06: finite key sweep, own driver loop
     if args.iter().any(|a| a == "--c17-pairs") {
         // C17: paired executions only (with/without getters, reset vs fresh, alone vs beside another context)
         oracle_c17::run_pairs(&mut out, seed, thorough);
